@@ -104,6 +104,28 @@ def generate(run_seed, tier):
             op["how"] = r.choice(["obj", "bytes", "der", "pem"])
             op["enc"] = r.choice(["uncompressed", "compressed", "hybrid"])
         ops.append(op)
+    if r.random() < 0.35:
+        # one object used for two complete exchanges in a row, possibly on
+        # curves of different sizes
+        node = r.randrange(2)
+        macro = []
+        for cv in r.choice([["A", "B"], ["B", "A"], ["A", "A"]]):
+            cmc = a if cv == "A" else b
+            macro.append(dict(op="set_curve", node=node, cv=cv,
+                              fseed=r.getrandbits(32)))
+            macro.append(dict(op="load_priv_obj", node=node, cv=cv,
+                              d=libx.key_scalar(r, cmc.n), fmt="ssleay",
+                              enc="uncompressed", fseed=r.getrandbits(32)))
+            macro.append(dict(op="send_pub", node=node, cv=cv,
+                              how=r.choice(["obj", "bytes", "der"]),
+                              enc=r.choice(["uncompressed", "hybrid"]),
+                              src="fresh", d=libx.key_scalar(r, cmc.n),
+                              faults=[], fseed=r.getrandbits(32)))
+            macro.append(dict(op=r.choice(["secret_bytes", "secret_bytes",
+                                           "secret"]), node=node, cv=cv,
+                              fseed=r.getrandbits(32)))
+        pos = r.randrange(len(ops) + 1)
+        ops[pos:pos] = macro
     return dict(A=a.name, B=b.name, init=init, ops=ops)
 
 
